@@ -8,6 +8,7 @@ use vstd::std_specs::cmp::*;
 use core::mem;
 verus! {
 
+//@include _shared/std_specs.rs
 //@include _shared/rb_prelude.rs
 //@include _shared/rb_bounded.rs external
 //@include _shared/signal_prelude.rs
